@@ -1,4 +1,5 @@
 import NanoVerif.Proofs.ClipBox
+import NanoVerif.Proofs.TrWriteFont
 /-
 C05 — A COLRv1 clip box never cuts painted content.
 Model: `Model/ClipBox.lean` (`quantizeRect`, `transformedBounds`, `clipBounds`).
